@@ -299,7 +299,9 @@ def body_als(c):
 def power_case(draw):
     dims = draw(st.sampled_from([d for d in DIMS if int(np.prod(d)) <= 64]))
     return {'dims': dims, 'cplx': draw(st.booleans()), 'seed': draw(gen.SEED), 'gevp': draw(st.sampled_from([False, False, True])),
-            'repeats': draw(st.integers(1, 5)), 'target': draw(st.floats(0.0, 1.0)), 'side': draw(st.sampled_from([-1, 1]))}
+            'repeats': draw(st.integers(1, 5)), 'target': draw(st.floats(0.0, 1.0)), 'side': draw(st.sampled_from([-1, 1])),
+            # a shift within 1e-6 of the target and 60 iterations: the un-normalised iterate would grow by 1e6 per step
+            'close_shift': draw(st.sampled_from([False] * 7 + [True]))}
 
 
 def body_power(c):
@@ -312,6 +314,9 @@ def body_power(c):
     lam[:j] -= 0.3
     lam[j + 1:] += 0.3
     sigma = float(lam[j] + 0.06 * c['side'])
+    if c.get('close_shift') and N <= 16:
+        sigma = float(lam[j] + 1e-6 * c['side'])
+        c = dict(c, repeats=60)
     D = dense.herm(rng, N, cplx, lam)
     B = None
     if c['gevp']:
@@ -335,6 +340,8 @@ def body_power(c):
     rq = rayleigh(xv, A, B)
     require(abs(ev - rq) <= 1e-8 * max(abs(rq), 1.0), 'power_rayleigh', 'reported %r, Rayleigh quotient of the returned tensor %r' % (ev, rq))
     lab = {'power_method', 'repeats%d' % c['repeats']}
+    if c.get('close_shift') and N <= 16:
+        lab.add('shift_1e-6_from_target_60_iterations')
     if cplx:
         lab.add('complex')
     if B is not None:
